@@ -224,6 +224,16 @@ def stat (s : St) (r : Ref) : Option Nat :=
   | some row => some row.size
   | none => (get s.small r).map List.length
 
+/-- `(*storage).StatBlobs` :1067 for a batch: what `fn` is called with, in the order of the request – a
+ref with a meta row is reported from the row (round one) and is NOT tried against `small`; only refs
+without a row go to `small.StatBlobs` (round two): every ref is reported at most once -/
+def statBlobs (s : St) : List Ref → List (Ref × Nat)
+  | [] => []
+  | r :: rs =>
+    match stat s r with
+    | some n => (r, n) :: statBlobs s rs
+    | none => statBlobs s rs
+
 def smallSizes (s : St) : List MergedEnum.SR := s.small.map (fun p => (p.1, p.2.length))
 def bSizes (s : St) : List MergedEnum.SR := s.b.map (fun p => (p.1, p.2.size))
 
